@@ -168,6 +168,12 @@ def run_evaluator_scenario(scn):
                 before = len(ev.jobs_done)
                 ev.close()
                 rec.update(new=[_jid(j) for j in ev.jobs_done[before:]], err=None)
+            elif kind == "busy":
+                # the caller is busy: time passes while the evaluator's loop is not running
+                b0 = vt.now()
+                vt.t += op["d"] * TICK
+                obs.setdefault("busy", []).append((b0, vt.now()))
+                rec["d"] = op["d"]
             rec["now"] = _tick(vt.now())
             obs["ops"].append(rec)
         if _settle(ev):
@@ -230,6 +236,14 @@ def run_evaluator_realtime(scn):
                 before = len(ev.jobs_done)
                 ev.close()
                 rec.update(new=[_jid(j) for j in ev.jobs_done[before:]], err=None)
+            elif kind == "busy":
+                # the caller is busy until `until` seconds after the timeout was set: the loop does not run
+                b0 = _time.time()
+                target = obs["timeline"][-1][0] + op["until"]
+                while _time.time() < target:
+                    _time.sleep(min(0.05, max(0.0, target - _time.time())))
+                obs.setdefault("busy", []).append((b0, _time.time()))
+                rec["until"] = op["until"]
             obs["ops"].append(rec)
     except Exception as e:
         obs["error"] = f"{type(e).__name__}: {e}"[:300]
@@ -463,6 +477,15 @@ def _realtime_class(scn, obs, i, rl):
     return "either", dl_lo, dl_hi
 
 
+def _loop_ran(obs, dl, ret):
+    """did the evaluator's loop get a chance to run between the deadline and the job's return?  (CANCELLING is written
+    by the loop; while the caller is busy nothing can observe it)"""
+    for b0, b1 in obs.get("busy", []):
+        if b0 <= dl and ret <= b1:
+            return False
+    return True
+
+
 def _deadline_for(timeline, t):
     d = None
     for (t0, dl) in timeline:
@@ -559,11 +582,13 @@ def oracle(scn, obs):
             # nominal end says nothing); "running at the expiry" = started before, cannot have ended before
             before, after, started_before = ("ret" in rl and _tick(rl["ret"]) < c and f < c), f > c, s < c
             late, polls_again = s > c, m >= 1 and p >= 1
+            loop_ran = True  # serial: a stalled loop stalls the run-function too, it reads the status when the loop resumes
             info.update(start=s, deadline=c, natural_finish=f)
         else:
             cl, dl_lo, dl_hi = _realtime_class(scn, obs, i, rl)
             before, after, started_before = cl == "before", cl == "after", True
             late, polls_again = cl == "late", m * p * scn["unit"] >= 0.5
+            loop_ran = dl_hi is None or "ret" not in rl or _loop_ran(obs, dl_lo, rl["ret"])
             z = obs["timeline"][0][0]
             info.update(start=round(rl["start"] - z, 3), ret=round(rl.get("ret", 0) - z, 3), deadline_lo=round(dl_lo - z, 3),
                         deadline_hi=round(dl_hi - z, 3), natural_finish=round(rl["start"] + m * p * scn["unit"] - z, 3))
@@ -578,7 +603,7 @@ def oracle(scn, obs):
             if status != "DONE" or saw or (lg is not None and 3 in lg):
                 bad.append(("finished-before-deadline-not-DONE", entry, info))
         elif after and started_before:
-            if not saw:
+            if not saw and loop_ran:
                 bad.append(("running-at-deadline-never-saw-CANCELLING", entry, info))
             if status != "CANCELLED":
                 bad.append(("running-at-deadline-not-CANCELLED", entry, info))
@@ -647,8 +672,8 @@ def build_obs(scn, obs):
         rl = runlog.get(i)
         fin = rep_status.get(i)
         gathered = fin is not None and i not in closed_inflight and rl is not None and "ret" in rl
-        rec = dict(log=logs.get(i, []), start=0, ret=0, natEnd=0, deadline=None, saw=False, pollsAgain=False, tie=False,
-                   gathered=bool(gathered), valueKept=True)
+        rec = dict(log=logs.get(i, []), start=0, ret=0, natEnd=0, deadline=None, saw=False, pollsAgain=False, loopRan=True,
+                   tie=False, gathered=bool(gathered), valueKept=True)
         if rl is not None:
             rec["saw"] = bool(rl["reads"]) and rl["reads"][-1][1] == "CANCELLING"
             if serial:
@@ -657,8 +682,10 @@ def build_obs(scn, obs):
                 rec.update(start=st, ret=_tick(rl["ret"]) if "ret" in rl else st, natEnd=st + m * p,
                            deadline=None if dl is None else _tick(dl), pollsAgain=bool(m >= 1 and p >= 1))
             else:
-                cl, _, _ = _realtime_class(scn, obs, i, rl)
+                cl, dlo, _ = _realtime_class(scn, obs, i, rl)
                 rec.update(_RT_NUMBERS[cl], tie=cl == "either", pollsAgain=bool(m * p * scn["unit"] >= 0.5))
+                if dlo is not None and "ret" in rl:
+                    rec["loopRan"] = _loop_ran(obs, dlo, rl["ret"])
         if gathered:
             try:
                 rec["valueKept"] = float(fin[1]) == float(i)
@@ -860,6 +887,41 @@ def gen_search(ck, n):
     return out
 
 
+def gen_busy_realtime(ck, backend, variants):
+    """the caller is busy between two gathers (thread / process): job A is collected by gather("BATCH", 1), job B returns
+    while the loop is not running -- variant "after": B's run ends after the expiry (must be CANCELLED), variant
+    "before": B's run ends well before the expiry although the loop only resumes after it (must be DONE)"""
+    rng = ck.rng
+    out = []
+    unit = 0.05
+    for v in variants:
+        t = 1
+        dB = t + 0.5 if v == "after" else t - 0.5
+        p = rng.choice([1, 2])
+        specs = [[int(round(0.25 / unit)), 1], [int(round(dB / (p * unit))), p]]
+        ops = [{"op": "timeout", "t": t}, {"op": "submit", "k": 2}, {"op": "gather", "all": False, "size": 1},
+               {"op": "busy", "until": t + 1.0 if v == "after" else t + 0.5}, {"op": "gather", "all": True}, {"op": "close"}]
+        out.append({"level": "evaluator", "backend": backend, "W": 2, "specs": specs, "ops": ops, "unit": unit,
+                    "src": f"evaluator:{backend}:caller-busy:{v}"})
+    return out
+
+
+def gen_busy_serial(ck, n):
+    """serial backend: the virtual clock advances between two gathers while the loop is not running (jobs in flight)"""
+    rng = ck.rng
+    out = []
+    for _ in range(n):
+        W = rng.choice([2, 3])
+        c = rng.choice([2, 3, 4])
+        K = W + rng.choice([0, 1, 2])
+        specs = [[1, 1]] + _specs_around(rng, K - 1, c + 1, W)
+        specs = [[max(1, m), p] for m, p in specs]
+        ops = [{"op": "timeout", "t": c}, {"op": "submit", "k": K}, {"op": "gather", "all": False, "size": 1},
+               {"op": "busy", "d": rng.randint(1, c + 2)}, {"op": "gather", "all": True}, {"op": "close"}]
+        out.append({"level": "evaluator", "backend": "serial", "W": W, "specs": specs, "ops": ops, "src": "evaluator:caller-busy"})
+    return out
+
+
 def gen_realtime_evaluator(ck, n, backend):
     """more jobs than workers under an evaluator timeout, real time: one job finishes before the expiry, others are
     running at the expiry, the rest is still queued behind the semaphore at the expiry"""
@@ -1049,7 +1111,11 @@ def _check_one(ck, scn, obs, drv, do_shrink=True):
             if _tick(rl["start"]) >= _tick(dl):
                 ck.count("job:acquired-at/after-deadline")
     # ---- L2
-    if serial:
+    if serial and scn["level"] == "evaluator" and any(o["op"] == "busy" for o in scn["ops"]):
+        # a caller-busy interval stalls the serial event loop with jobs in flight: run-functions resume late, which the
+        # timeline model does not describe; these scripts are judged by the verified checker / oracle only
+        ck.count("L2-skipped:stalled-serial-loop")
+    elif serial:
         rep = drv.ask(lean_request(scn, obs))
         diff = _compare_serial(ck, scn, obs, rep, case)
         if diff:
@@ -1078,8 +1144,9 @@ def _check_one(ck, scn, obs, drv, do_shrink=True):
         else:
             closed = {i for rec in obs["ops"] if rec["op"] == "close" for i in rec["new"]}
             rows = {i: {"status": st_} for (i, st_, _) in obs["results"] if i not in closed}
+        flagged = {b[2].get("job") for b in py_bad if isinstance(b[2], dict)}  # already reported by the oracle (L3)
         for i, rl in sorted(obs["runlog"].items()):
-            if i not in rows or i >= len(scn["specs"]):
+            if i not in rows or i >= len(scn["specs"]) or i in flagged:
                 continue
             cl, dl_lo, dl_hi = _realtime_class(scn, obs, i, rl)
             if cl == "either":
@@ -1148,12 +1215,15 @@ def run(ck):
     ck.trusted_extra = ["harness/vloop.py (virtual-time event loop, patched time of deephyper.evaluator._evaluator)"]
     from . import vloop
 
-    serial = _corpus() + gen_evaluator(ck, ck.pick(260, 4000)) + gen_search(ck, ck.pick(120, 1500))
-    real = gen_realtime(ck, ck.pick(5, 24), "thread") + gen_realtime_evaluator(ck, ck.pick(4, 16), "thread")
+    serial = _corpus() + gen_evaluator(ck, ck.pick(260, 4000)) + gen_search(ck, ck.pick(120, 1500)) + \
+        gen_busy_serial(ck, ck.pick(30, 400))
+    real = gen_realtime(ck, ck.pick(4, 24), "thread") + gen_realtime_evaluator(ck, ck.pick(3, 16), "thread")
     if ck.thorough:
         real += gen_realtime(ck, 8, "process") + gen_realtime_evaluator(ck, 6, "process")
+        real += gen_busy_realtime(ck, "thread", ["after", "before"] * 3) + gen_busy_realtime(ck, "process", ["after", "before"] * 3)
     else:
         real += gen_realtime_evaluator(ck, 1, "process")  # ProcessPoolEvaluator.execute at least once in quick
+        real += gen_busy_realtime(ck, "thread", ["after", "before"]) + gen_busy_realtime(ck, "process", ["after"])
     if ck.thorough:
         import concurrent.futures as cf
 
